@@ -257,9 +257,10 @@ Print Assumptions C10_pdr_model_fail_real.
     command, no failing BMC fallback) the model returns neither an error
     nor a panic (every Err / panic! / assert! / index path of pdr.rs is unreachable: "original cube is
     reachable from init", FrameId decrement/increment, frame indexing, the assert in fix_gen_cube);
-    the fuel of fix_gen_cube's loop and of the pushing loop is computed and suffices.  TERMINATION of
-    block_cube's loop and of the main loop is NOT proved: the statement is conditional on the fuel
-    ([Fuel] = the model's own fuel ran out). *)
+    the fuel of fix_gen_cube's loop and of the pushing loop is computed and suffices.  This statement
+    is conditional on the fuel of block_cube's loop and of the main loop ([Fuel] = the model's own fuel
+    ran out); TERMINATION is the subject of the theorems [C10_pdr_block_loop_terminates],
+    [C10_pdr_model_terminates], [C10_pdr_model_total_small] at the end of this file. *)
 Theorem C10_pdr_model_definite :
   forall (lit : Type) (lit_eqb : lit -> lit -> bool) (St : Type) (cube_of_state : St -> list lit) (W EM : Type)
          (solve : nat -> query lit -> answer lit St EM) (cmd_fail : nat -> option EM) (n_init : nat)
@@ -382,3 +383,228 @@ Theorem C10_pdr_model_definite_sys :
     end.
 Proof. exact pdr_model_definite_sys. Qed.
 Print Assumptions C10_pdr_model_definite_sys.
+
+(** ** TERMINATION of the concrete model (Proofs/PdrTermination*.v)
+
+    Hypotheses: the state space is FINITE and listed ([finite_states]: every state occurs in [states] - for
+    a system of Spec/System.v the 2^bits valuations of its state symbols - and a bit-level cube holds of
+    its own state), the oracle is truthful ([oracle_ok]) and never answers "unknown" / never fails
+    ([no_faults]).  Models and unsat cores are otherwise arbitrary; generalisation on or off.
+
+    (a) block_cube's proof-obligation loop.  Measure: mu = |F_1| + .. + |F_N| (listed states per frame);
+    an obligation (c, j) is fresh when the state of c is still in F_j; g = the frame of the smallest
+    obligation if it is fresh, N + 1 otherwise; Phi = (2N+3) mu + |queue| + 2 g decreases in every
+    iteration (a predecessor is a fresh obligation one frame lower; blocking a fresh obligation shrinks
+    its frame).  [block_fuel_bound N n q = (2N+3) N n + q + 2(N+1)] bounds Phi. *)
+From Patronus Require Import PdrTermination PdrTerminationMain PdrTerminationSys.
+Open Scope nat_scope.
+
+Theorem C10_pdr_block_loop_terminates :
+  forall (lit : Type) (lit_eqb : lit -> lit -> bool) (St : Type) (cube_of_state : St -> list lit) (W EM : Type)
+         (solve : nat -> query lit -> answer lit St EM) (cmd_fail : nat -> option EM)
+         (gen_on has_bads : bool) (bmc_result : bmc_answer W EM)
+         (lit_holds : lit -> St -> bool) (bad0 : St -> bool) (step0 trans : St -> St -> bool) (bad : St -> bool)
+         (states : list St) (fuel : nat) (st : pst lit St EM) (work : list (tcube lit)),
+    finite_states lit St cube_of_state lit_holds states ->
+    oracle_ok lit lit_eqb St cube_of_state EM solve has_bads lit_holds bad0 step0 trans bad ->
+    no_faults lit St W EM solve cmd_fail bmc_result ->
+    pinv lit St EM lit_holds bad0 step0 trans bad st -> book lit St EM st ->
+    List.Forall (obl_ok lit St cube_of_state bad0 step0 trans bad (length (p_frames lit St EM st))) work ->
+    block_fuel_bound (length (p_frames lit St EM st)) (length states) (length work) < fuel ->
+    match block_loop lit lit_eqb St cube_of_state EM solve cmd_fail gen_on fuel st work with
+    | Ok _ => True
+    | _ => False
+    end.
+Proof. exact pdr_block_loop_terminates. Qed.
+Print Assumptions C10_pdr_block_loop_terminates.
+
+(** (b) the whole run.  Main-loop measure: Psi = (MAX_FRAMES + 1 - frontier) (|states| + 1) + number of bad
+    states in the frontier frame; [pdr_fuel_bound n = (MAX_FRAMES + 1) (n + 1) + n] bounds it;
+    [pdr_block_fuel_bound n = block_fuel_bound (min MAX_FRAMES (n + 1)) n 1].  For EVERY fuel above the two
+    bounds the model returns a verdict: not [Fuel], not an error, not a panic. *)
+Theorem C10_pdr_model_terminates :
+  forall (lit : Type) (lit_eqb : lit -> lit -> bool) (St : Type) (cube_of_state : St -> list lit) (W EM : Type)
+         (solve : nat -> query lit -> answer lit St EM) (cmd_fail : nat -> option EM) (n_init : nat)
+         (gen_on has_bads : bool) (bmc_result : bmc_answer W EM)
+         (lit_holds : lit -> St -> bool) (bad0 : St -> bool) (step0 trans : St -> St -> bool) (bad : St -> bool)
+         (states : list St) (fuel bf : nat),
+    finite_states lit St cube_of_state lit_holds states ->
+    oracle_ok lit lit_eqb St cube_of_state EM solve has_bads lit_holds bad0 step0 trans bad ->
+    no_faults lit St W EM solve cmd_fail bmc_result ->
+    pdr_fuel_bound (length states) < fuel -> pdr_block_fuel_bound (length states) < bf ->
+    exists v st', pdr lit lit_eqb St cube_of_state W EM solve cmd_fail n_init gen_on has_bads bmc_result fuel bf = Ok (v, st').
+Proof. exact pdr_model_terminates. Qed.
+Print Assumptions C10_pdr_model_terminates.
+
+(** Unknown (any fuel): only at the frame limit - which needs a state space of at least MAX_FRAMES states,
+    because an unsuccessful propagation leaves a strictly increasing chain F_1 < F_2 < .. < F_frontier - or
+    when the BMC fallback gives up although a counterexample within its bound exists. *)
+Theorem C10_unknown_only_at_frame_limit :
+  forall (lit : Type) (lit_eqb : lit -> lit -> bool) (St : Type) (cube_of_state : St -> list lit) (W EM : Type)
+         (solve : nat -> query lit -> answer lit St EM) (cmd_fail : nat -> option EM) (n_init : nat)
+         (gen_on has_bads : bool) (bmc_result : bmc_answer W EM)
+         (lit_holds : lit -> St -> bool) (bad0 : St -> bool) (step0 trans : St -> St -> bool) (bad : St -> bool)
+         (states : list St) (fuel bf : nat) (st' : pst lit St EM),
+    finite_states lit St cube_of_state lit_holds states ->
+    oracle_ok lit lit_eqb St cube_of_state EM solve has_bads lit_holds bad0 step0 trans bad ->
+    no_faults lit St W EM solve cmd_fail bmc_result ->
+    pdr lit lit_eqb St cube_of_state W EM solve cmd_fail n_init gen_on has_bads bmc_result fuel bf = Ok (VUnknown W, st') ->
+    (MAX_FRAMES < length (p_frames lit St EM st') /\ MAX_FRAMES <= length states) \/
+    (bmc_result = BmcOther W EM /\ exists d, d <= MAX_FRAMES /\ unsafe_at St bad0 step0 trans bad d).
+Proof. exact pdr_model_unknown_only_at_limit. Qed.
+Print Assumptions C10_unknown_only_at_frame_limit.
+
+(** Small state spaces (|states| + 1 <= MAX_FRAMES = 1000): the run ends with Success and the system is
+    safe, or with Fail and a bad state is reachable; the third case is the BMC ORACLE giving up although a
+    counterexample within its bound exists (an exact bounded model checker, C02, does not). *)
+Theorem C10_pdr_model_total_small :
+  forall (lit : Type) (lit_eqb : lit -> lit -> bool) (St : Type) (cube_of_state : St -> list lit) (W EM : Type)
+         (solve : nat -> query lit -> answer lit St EM) (cmd_fail : nat -> option EM) (n_init : nat)
+         (gen_on has_bads : bool) (bmc_result : bmc_answer W EM)
+         (lit_holds : lit -> St -> bool) (bad0 : St -> bool) (step0 trans : St -> St -> bool) (bad : St -> bool)
+         (states : list St) (fuel bf : nat),
+    finite_states lit St cube_of_state lit_holds states ->
+    oracle_ok lit lit_eqb St cube_of_state EM solve has_bads lit_holds bad0 step0 trans bad ->
+    no_faults lit St W EM solve cmd_fail bmc_result ->
+    S (length states) <= MAX_FRAMES ->
+    pdr_fuel_bound (length states) < fuel -> pdr_block_fuel_bound (length states) < bf ->
+    let run := pdr lit lit_eqb St cube_of_state W EM solve cmd_fail n_init gen_on has_bads bmc_result fuel bf in
+    (exists st', run = Ok (VSuccess W, st') /\ safe St bad0 step0 trans bad) \/
+    (exists w st', run = Ok (VFail W w, st') /\ bmc_result = BmcFail W EM w /\
+                   exists d, d <= MAX_FRAMES /\ unsafe_at St bad0 step0 trans bad d) \/
+    (exists st', run = Ok (VUnknown W, st') /\ bmc_result = BmcOther W EM /\
+                 exists d, d <= MAX_FRAMES /\ unsafe_at St bad0 step0 trans bad d).
+Proof. exact pdr_model_total_small. Qed.
+Print Assumptions C10_pdr_model_total_small.
+
+(** The same on the transition systems of Spec/System.v: [nstates sy] = 2^(state bits). *)
+Theorem C10_pdr_model_terminates_sys :
+  forall (sy : sys) (W EM : Type) (solve : nat -> query slit -> answer slit (sstate sy) EM) (cmd_fail : nat -> option EM) (n_init : nat)
+         (gen_on : bool) (bmc_result : bmc_answer W EM) (fuel bf : nat),
+    (forall n q, truthful slit slit_eqb (sstate sy) EM (slit_holds sy) (st_bad0 sy) (st_step0 sy) (st_trans sy) (st_bad sy)
+                          q (solve n q)) ->
+    no_faults slit (sstate sy) W EM solve cmd_fail bmc_result ->
+    pdr_fuel_bound (nstates sy) < fuel -> pdr_block_fuel_bound (nstates sy) < bf ->
+    exists v st', pdr slit slit_eqb (sstate sy) (scube sy) W EM solve cmd_fail n_init gen_on (has_bads_of sy) bmc_result fuel bf = Ok (v, st').
+Proof. exact pdr_model_terminates_sys. Qed.
+Print Assumptions C10_pdr_model_terminates_sys.
+
+Theorem C10_unknown_only_at_frame_limit_sys :
+  forall (sy : sys) (W EM : Type) (solve : nat -> query slit -> answer slit (sstate sy) EM) (cmd_fail : nat -> option EM) (n_init : nat)
+         (gen_on : bool) (bmc_result : bmc_answer W EM),
+    fin_class sy = true ->
+    forall (fuel bf : nat) (st' : pst slit (sstate sy) EM),
+    (forall n q, truthful slit slit_eqb (sstate sy) EM (slit_holds sy) (st_bad0 sy) (st_step0 sy) (st_trans sy) (st_bad sy)
+                          q (solve n q)) ->
+    no_faults slit (sstate sy) W EM solve cmd_fail bmc_result ->
+    pdr slit slit_eqb (sstate sy) (scube sy) W EM solve cmd_fail n_init gen_on (has_bads_of sy) bmc_result fuel bf = Ok (VUnknown W, st') ->
+    (MAX_FRAMES < length (p_frames slit (sstate sy) EM st') /\ MAX_FRAMES <= nstates sy) \/
+    (bmc_result = BmcOther W EM /\ exists d : nat, d <= MAX_FRAMES /\ bad_reachable_within sy d).
+Proof. exact pdr_model_unknown_only_at_limit_sys. Qed.
+Print Assumptions C10_unknown_only_at_frame_limit_sys.
+
+(** the statement the property makes, for systems with 2^(state bits) + 1 <= MAX_FRAMES *)
+Theorem C10_pdr_model_total_small_sys :
+  forall (sy : sys) (W EM : Type) (solve : nat -> query slit -> answer slit (sstate sy) EM) (cmd_fail : nat -> option EM) (n_init : nat)
+         (gen_on : bool) (bmc_result : bmc_answer W EM),
+    fin_class sy = true ->
+    forall (fuel bf : nat),
+    (forall n q, truthful slit slit_eqb (sstate sy) EM (slit_holds sy) (st_bad0 sy) (st_step0 sy) (st_trans sy) (st_bad sy)
+                          q (solve n q)) ->
+    no_faults slit (sstate sy) W EM solve cmd_fail bmc_result ->
+    S (nstates sy) <= MAX_FRAMES ->
+    pdr_fuel_bound (nstates sy) < fuel -> pdr_block_fuel_bound (nstates sy) < bf ->
+    let run := pdr slit slit_eqb (sstate sy) (scube sy) W EM solve cmd_fail n_init gen_on (has_bads_of sy) bmc_result fuel bf in
+    (exists st', run = Ok (VSuccess W, st') /\ ~ bad_reachable sy) \/
+    (exists w st', run = Ok (VFail W w, st') /\ bmc_result = BmcFail W EM w /\
+                   exists d : nat, d <= MAX_FRAMES /\ bad_reachable_within sy d) \/
+    (exists st', run = Ok (VUnknown W, st') /\ bmc_result = BmcOther W EM /\
+                 exists d : nat, d <= MAX_FRAMES /\ bad_reachable_within sy d).
+Proof. exact pdr_model_total_small_sys. Qed.
+Print Assumptions C10_pdr_model_total_small_sys.
+
+(** Completeness for counterexamples within the frame bound, whatever the number of state bits: if a bad state
+    is reachable in at most MAX_FRAMES steps the model answers Fail (or its BMC oracle gives up). *)
+Theorem C10_pdr_model_fail_complete_sys :
+  forall (sy : sys) (W EM : Type) (solve : nat -> query slit -> answer slit (sstate sy) EM) (cmd_fail : nat -> option EM) (n_init : nat)
+         (gen_on : bool) (bmc_result : bmc_answer W EM),
+    fin_class sy = true ->
+    forall (fuel bf k : nat),
+    (forall n q, truthful slit slit_eqb (sstate sy) EM (slit_holds sy) (st_bad0 sy) (st_step0 sy) (st_trans sy) (st_bad sy)
+                          q (solve n q)) ->
+    no_faults slit (sstate sy) W EM solve cmd_fail bmc_result ->
+    bad_reachable_within sy k -> k <= MAX_FRAMES ->
+    pdr_fuel_bound (nstates sy) < fuel -> pdr_block_fuel_bound (nstates sy) < bf ->
+    let run := pdr slit slit_eqb (sstate sy) (scube sy) W EM solve cmd_fail n_init gen_on (has_bads_of sy) bmc_result fuel bf in
+    (exists w st', run = Ok (VFail W w, st') /\ bmc_result = BmcFail W EM w) \/
+    (exists st', run = Ok (VUnknown W, st') /\ bmc_result = BmcOther W EM).
+Proof. exact pdr_model_fail_complete_sys. Qed.
+Print Assumptions C10_pdr_model_fail_complete_sys.
+
+(** Beyond the frame bound the property FAILS for the model: when every counterexample is longer than
+    MAX_FRAMES steps the answer is Unknown (at the frame limit) - for every truthful oracle.  Concrete
+    instance: [deep_counter], the 11-bit counter c' = c + 1 from 0 with bad = (c == 1500). *)
+Theorem C10_pdr_model_deep_unknown_sys :
+  forall (sy : sys) (W EM : Type) (solve : nat -> query slit -> answer slit (sstate sy) EM) (cmd_fail : nat -> option EM) (n_init : nat)
+         (gen_on : bool) (bmc_result : bmc_answer W EM),
+    fin_class sy = true ->
+    forall (fuel bf : nat),
+    (forall n q, truthful slit slit_eqb (sstate sy) EM (slit_holds sy) (st_bad0 sy) (st_step0 sy) (st_trans sy) (st_bad sy)
+                          q (solve n q)) ->
+    no_faults slit (sstate sy) W EM solve cmd_fail bmc_result ->
+    bad_reachable sy -> (forall k, k <= MAX_FRAMES -> ~ bad_reachable_within sy k) ->
+    pdr_fuel_bound (nstates sy) < fuel -> pdr_block_fuel_bound (nstates sy) < bf ->
+    exists st', pdr slit slit_eqb (sstate sy) (scube sy) W EM solve cmd_fail n_init gen_on (has_bads_of sy) bmc_result fuel bf = Ok (VUnknown W, st') /\
+                MAX_FRAMES < length (p_frames slit (sstate sy) EM st').
+Proof. exact pdr_model_deep_unknown_sys. Qed.
+Print Assumptions C10_pdr_model_deep_unknown_sys.
+
+Theorem C10_pdr_model_unknown_on_deep_counter :
+  forall (W EM : Type) (solve : nat -> query slit -> answer slit (sstate deep_counter) EM) (cmd_fail : nat -> option EM) (n_init : nat)
+         (gen_on : bool) (bmc_result : bmc_answer W EM) (fuel bf : nat),
+    (forall n q, truthful slit slit_eqb (sstate deep_counter) EM (slit_holds deep_counter) (st_bad0 deep_counter) (st_step0 deep_counter)
+                          (st_trans deep_counter) (st_bad deep_counter) q (solve n q)) ->
+    no_faults slit (sstate deep_counter) W EM solve cmd_fail bmc_result ->
+    pdr_fuel_bound (nstates deep_counter) < fuel -> pdr_block_fuel_bound (nstates deep_counter) < bf ->
+    exists st', pdr slit slit_eqb (sstate deep_counter) (scube deep_counter) W EM solve cmd_fail n_init gen_on
+                    (has_bads_of deep_counter) bmc_result fuel bf = Ok (VUnknown W, st') /\
+                MAX_FRAMES < length (p_frames slit (sstate deep_counter) EM st').
+Proof. exact pdr_model_unknown_on_deep_counter. Qed.
+Print Assumptions C10_pdr_model_unknown_on_deep_counter.
+
+Example C10_deep_counter_example : fin_class deep_counter = true /\ reach_spec deep_counter = Unsafe 1500.
+Proof. vm_compute. split; reflexivity. Qed.
+
+(** The hypotheses are satisfiable for EVERY small system of the class: with the exhaustive-search oracle
+    over the listed valuations (truthful: [C10_pdr_enum_oracle_truthful]; it never answers "unknown") and a
+    BMC oracle that returns a witness, the model decides the system. *)
+Theorem C10_pdr_enum_total_small_sys :
+  forall (sy : sys), fin_class sy = true ->
+  forall (W : Type) (w : W) (n_init : nat) (gen_on : bool) (fuel bf : nat),
+    S (nstates sy) <= MAX_FRAMES ->
+    pdr_fuel_bound (nstates sy) < fuel -> pdr_block_fuel_bound (nstates sy) < bf ->
+    let run := pdr slit slit_eqb (sstate sy) (scube sy) W unit
+                   (enum_solve slit (sstate sy) unit (slit_holds sy) (st_bad0 sy) (st_step0 sy) (st_trans sy) (st_bad sy) (sstates sy))
+                   (fun _ => None) n_init gen_on (has_bads_of sy) (BmcFail W unit w) fuel bf in
+    (exists st', run = Ok (VSuccess W, st') /\ ~ bad_reachable sy) \/
+    (exists st', run = Ok (VFail W w, st') /\ exists d : nat, d <= MAX_FRAMES /\ bad_reachable_within sy d).
+Proof. exact pdr_enum_total_small_sys. Qed.
+Print Assumptions C10_pdr_enum_total_small_sys.
+
+(** Non-vacuity by computation: the 3-bit counters [ex_safe] / [ex_unsafe] above (8 state valuations, one
+    input bit), the exhaustive-search oracle, the COMPUTED fuel bounds (main loop 1001 * 9 + 8 = 9017, block_cube 21 * 72 + 21 = 1533):
+    the model returns Success / Fail - not Fuel - with generalisation on and off. *)
+Definition tex_run (sy : sys) (gen : bool) :=
+  pdr slit slit_eqb (sstate sy) (scube sy) unit unit
+      (enum_solve slit (sstate sy) unit (slit_holds sy) (st_bad0 sy) (st_step0 sy) (st_trans sy) (st_bad sy) (sstates sy))
+      (fun _ => None) 3 gen (has_bads_of sy) (BmcFail unit unit tt)
+      (S (pdr_fuel_bound (nstates sy))) (S (pdr_block_fuel_bound (nstates sy))).
+
+Example C10_pdr_termination_example :
+  nstates ex_safe = 8 /\ Nat.leb (S (nstates ex_safe)) MAX_FRAMES = true /\
+  pdr_fuel_bound 8 = 1001 * 9 + 8 /\ pdr_block_fuel_bound 8 = 21 * 72 + 21 /\
+  (match tex_run ex_safe true with Ok (VSuccess _, _) => true | _ => false end) = true /\
+  (match tex_run ex_safe false with Ok (VSuccess _, _) => true | _ => false end) = true /\
+  (match tex_run ex_unsafe true with Ok (VFail _ _, _) => true | _ => false end) = true /\
+  (match tex_run ex_unsafe false with Ok (VFail _ _, _) => true | _ => false end) = true.
+Proof. vm_compute. repeat split. Qed.
